@@ -192,7 +192,9 @@ def cases():
 def items(tier, seed):
   for i, c in enumerate(cases()):
     yield ('call', i)
-  for b in ('eval', 'locals', 'globals', 'super', 'eval_hidden'):
+  for r in REGISTRIES:
+    yield ('registry', r)
+  for b in ('eval', 'locals', 'globals', 'super', 'eval_hidden', 'super_inherited', 'super_chain'):
     for depth in range(0, 4):
       for ctx in itertools.product(('if', 'for', 'while'), repeat=depth):
         yield ('ctx', b, ctx)
@@ -264,6 +266,22 @@ def check_call(i, break_sub=False):
   ref = invoke(b, argf, kwf, lambda f, a, k: f(*a, **k))
   routes = [('overload_of', lambda f, a, k: sub(*a, **k)),
             ('converted_call', lambda f, a, k: api.converted_call(b, tuple(a), dict(k) if k else None, options=opts))]
+  mutated = []
+  if kwf:
+    # the same call with the first keyword bound in a functools.partial and the others given at the call site
+    import functools
+
+    def via_partial(f, a, k):
+      k0 = sorted(k)[0]
+      bound = {k0: k[k0]}
+      p = functools.partial(b, **bound)
+      rest = {kk: vv for kk, vv in k.items() if kk != k0}
+      try:
+        return api.converted_call(p, tuple(a), rest if rest else None, options=opts)
+      finally:
+        if set(p.keywords) != {k0} or p.keywords[k0] is not bound[k0] or p.args != ():
+          mutated.append((sorted(p.keywords), p.args))
+    routes.append(('converted_call of a partial', via_partial))
   if break_sub:
     routes = routes[:1]
   for rname, route in routes:
@@ -282,6 +300,8 @@ def check_call(i, break_sub=False):
     else:
       viol.append(('output', '%s(%s) via %s: builtin writes %r / %r, substitute writes %r / %r' % (name, desc, rname, ref[1], ref[2], got[1], got[2])))
     break
+  if mutated and not viol:
+    viol.append(('partial-mutated', '%s(%s): calling a partial of the builtin through converted_call changed the partial object: keywords/args now %r' % (name, desc, mutated[0])))
   return name, desc, viol
 
 
@@ -301,6 +321,61 @@ def shape_rejected(b, argf, kwf):
   return False
 
 
+# --- type registries: an override registered for one builtin must not leak into the others -----
+
+class Vec(list):
+  def __abs__(self):
+    return 'abs-of-vec'
+
+
+REGISTRIES = ('abs', 'len', 'print', 'enumerate', 'zip', 'map', 'filter', 'any', 'all', 'sorted', 'next', 'for_loop')
+
+
+def registry_calls():
+  ident = lambda x: x
+  return [('abs', lambda f: f(Vec([1, 0, 2]))), ('len', lambda f: f(Vec([1, 0, 2]))), ('any', lambda f: f(Vec([1, 0, 2]))),
+          ('all', lambda f: f(Vec([1, 0, 2]))), ('sorted', lambda f: f(Vec([1, 0, 2]))), ('enumerate', lambda f: list(f(Vec([1, 0, 2])))),
+          ('zip', lambda f: list(f(Vec([1, 0, 2]), Vec([3])))), ('map', lambda f: list(f(ident, Vec([1, 0, 2])))),
+          ('filter', lambda f: list(f(None, Vec([1, 0, 2])))), ('print', lambda f: f(Vec([1, 0, 2])))]
+
+
+def check_registry(rname):
+  from malt.operators import py_builtins, control_flow
+  import builtins
+  reg = control_flow.for_loop_registry if rname == 'for_loop' else getattr(py_builtins, rname + '_registry')
+  viol = []
+  ncalls = 0
+
+  def observe(fn):
+    out = io.StringIO()
+    try:
+      with contextlib.redirect_stdout(out):
+        return ('ret', repr(fn())), out.getvalue()
+    except Exception as e:  # pylint:disable=broad-except
+      return ('exc', type(e).__name__), out.getvalue()
+  reg.register(Vec, lambda *a, **k: 'OVERRIDE-%s' % rname)
+  try:
+    for bname, call in registry_calls():
+      if bname == rname:
+        continue
+      b = getattr(builtins, bname)
+      ref = observe(lambda: call(b))
+      got = observe(lambda: call(py_builtins.overload_of(b)))
+      ncalls += 1
+      if ref != got:
+        viol.append(('registry-leak', 'with an override registered for %s only, %s on the same type gives %r, the builtin gives %r' % (rname, bname, got, ref)))
+        break
+    if rname != 'for_loop':
+      # ... nor into the for statement operator
+      seen = []
+      control_flow.for_stmt(Vec([1, 2]), None, seen.append, lambda: (), lambda _: None, (), {})
+      if seen != [1, 2]:
+        viol.append(('registry-leak', 'with an override registered for %s only, for_stmt over the same type ran the body on %r' % (rname, seen)))
+  finally:
+    reg._registry.pop(Vec, None)
+  return viol, ncalls
+
+
 # --- context-sensitive builtins ------------------------------------------------
 
 def ctx_source(b, ctx, pid):
@@ -311,7 +386,7 @@ def ctx_source(b, ctx, pid):
     k[0] += 1
     return k[0]
   ind = 1
-  if b == 'super':
+  if b in ('super', 'super_inherited', 'super_chain'):
     L.append('class Base(object):')
     L.append('    def m(self, zo, d):')
     L.append('        return 100')
@@ -341,14 +416,26 @@ def ctx_source(b, ctx, pid):
     L.append(pad + "r = r * 10 + locals()['x'] + x * 0")
   elif b == 'globals':
     L.append(pad + "r = r * 10 + globals()['GV']")
-  elif b == 'super':
+  elif b in ('super', 'super_inherited', 'super_chain'):
     L.append(pad + 'r = r * 10 + super().m(zo, d)')
   if 'while' in ctx:
     L.append(pad + 'break')
-  base = 2 if b == 'super' else 1
+  base = 2 if b.startswith('super') else 1
   L.append('    ' * base + 'return (%d, r)' % pid)
-  if b == 'super':
+  if b == 'super_inherited':
+    # the method runs on an instance of a subclass of its defining class
+    L.append('class Leaf(Child):')
+    L.append('    pass')
+    L.append('_obj = Leaf()')
+  elif b == 'super_chain':
+    # cooperative chain: the subclass overrides m and reaches Child.m through its own super()
+    L.append('class Leaf(Child):')
+    L.append('    def m(self, zo, d):')
+    L.append('        return (7, super().m(zo, d))')
+    L.append('_obj = Leaf()')
+  elif b == 'super':
     L.append('_obj = Child()')
+  if b.startswith('super'):
     L.append('def f(zo, d):')
     L.append('    return _obj.m(zo, d)')
   return '\n'.join(L) + '\n'
@@ -384,6 +471,10 @@ def stable_id(item):
 
 
 def check(item):
+  if item[0] == 'registry':
+    viol, ncalls = check_registry(item[1])
+    out = [util.V('%s|%s' % (k, item[1]), m, item) for k, m in viol]
+    return {'viol': out, 'n': {'evaluations': ncalls, 'registry_cases': 1}, 'outcome': repr(item), 'nontrivial': repr(item)}
   if item[0] == 'call':
     name, desc, viol = check_call(item[1])
     out = [util.V('%s|%s|%s' % (k, name, desc), m, item) for k, m in viol]
